@@ -135,6 +135,8 @@ pub struct ModelState {
     pub outq: Vec<bool>,
     /// plain IEEE 488.2 wiring: the status byte reports ESB, MAV and MSS only
     pub plain488: bool,
+    /// the interface never reports message-available
+    pub no_mav: bool,
 }
 
 impl ModelState {
@@ -205,10 +207,28 @@ impl ModelState {
     }
 }
 
+fn join_elements(items: Vec<Datum>) -> core::result::Result<Vec<u8>, ErrObs> {
+    let mut v = Vec::new();
+    for (k, d) in items.iter().enumerate() {
+        if k > 0 {
+            v.push(b',');
+        }
+        v.extend_from_slice(&datum_text(d)?);
+    }
+    Ok(v)
+}
+
 pub fn render_item(e: &ErrObs) -> Vec<u8> {
     let mut v = e.code.to_string().into_bytes();
     v.extend_from_slice(b",\"");
-    v.extend_from_slice(e.msg.as_slice());
+    // a string delimiter inside the description is doubled (IEEE 488.2 8.7.8)
+    for b in e.msg.as_slice() {
+        if *b == b'"' {
+            v.push(b'"');
+        }
+        v.push(*b);
+    }
+
     if let Some(x) = &e.ext {
         v.push(b';');
         v.extend_from_slice(x.as_slice());
@@ -617,6 +637,10 @@ impl<'a> Interp<'a> {
                 let dt = match d {
                     // an error/event queue item is two response data elements: <NR1>,<string>
                     Datum::Err(spec) => Ok(render_item(&spec_obs(spec))),
+                    // lists: the elements, each formatted on its own, joined by the data separator
+                    Datum::ArrList(l) => join_elements(l.iter().map(|x| Datum::I64(*x as i64)).collect()),
+                    Datum::VecList(l) => join_elements(l.iter().map(|x| Datum::U64(*x as u64)).collect()),
+                    Datum::ChrList(l) => join_elements(l.iter().map(|x| Datum::Chr(x.clone())).collect()),
                     other => datum_text(other),
                 };
                 match dt {
@@ -814,7 +838,7 @@ pub fn spec_obs(s: &ErrSpec) -> ErrObs {
 /// from `st.outq`). Formatter capacity `cap` (None = unbounded).
 pub fn predict(root: &MNode, st: &ModelState, step: &SendStep, reading: Reading) -> Pred {
     let msg = &step.msg;
-    let mav = st.outq.get(step.ctl as usize).copied().unwrap_or(false);
+    let mav = !st.no_mav && st.outq.get(step.ctl as usize).copied().unwrap_or(false);
     let mut it = Interp {
         root,
         st: st.clone(),
